@@ -160,7 +160,8 @@ def keymapGet (specials : List (List Nat × List Nat)) (key : List Nat) : Except
       if !(key.drop 1).isEmpty && key.take 2 == [67, 45] then        -- "C-"
         .ok [[60, 67, 116, 114, 108, 45] ++ key.drop 2 ++ [62]]       -- "<Ctrl-%s>"
       else if !(key.drop 1).isEmpty && key.take 2 == [77, 45] then   -- "M-"
-        .ok [[60, 69, 115, 99, 43] ++ key.drop 2 ++ [62],             -- "<Esc+%s>"
+        .ok [[60, 69, 115, 99, 43] ++ (if key.drop 2 == [32] then [83, 80, 65, 67, 69] else key.drop 2) ++ [62],
+                                                                      -- "<Esc+%s>" % ("SPACE" if key[2:] == " " else key[2:])
              [60, 77, 101, 116, 97, 45] ++ key.drop 2 ++ [62]]        -- "<Meta-%s>"
       else if key.head? == some 70 && !(key.drop 1).isEmpty && (key.drop 1).all isAsciiDigit then
         .ok [[60, 70] ++ natCps (digitsVal (key.drop 1)) ++ [62]]     -- "<F%d>" % int(key[1:])
